@@ -323,7 +323,8 @@ def comp_struct(e: ast.AST) -> Optional[Tuple[str, List[Tuple[str, List[str]]]]]
             return ast.copy_location(ast.Name(id=ren[n.id], ctx=n.ctx), n) if n.id in ren else n
 
     def txt(x):
-        return norm(R().visit(_copy.deepcopy(x))).replace("_DOLLAR_", "$")
+        from .canon import NormText
+        return NormText(norm(R().visit(_copy.deepcopy(x))).replace("_DOLLAR_", "$"))
     for i, g in enumerate(e.generators):
         it = txt(g.iter)
         if isinstance(g.target, ast.Name):
@@ -337,5 +338,6 @@ def comp_struct(e: ast.AST) -> Optional[Tuple[str, List[Tuple[str, List[str]]]]]
                         if isinstance(t2, ast.Name):
                             ren[t2.id] = f"_DOLLAR_{i}_{j}_{k_}"
         gens.append((it, [txt(c) for c in g.ifs]))
-    el = (txt(e.key) + ": " + txt(e.value)) if isinstance(e, ast.DictComp) else txt(e.elt)
+    from .canon import NormText
+    el = NormText(txt(e.key) + ": " + txt(e.value)) if isinstance(e, ast.DictComp) else txt(e.elt)
     return el, gens
